@@ -45,7 +45,8 @@ def make_server(spec, result):
         elif k == "status":
             status = fault["status"]
         elif k == "nonjson":
-            raw = [b"<html>nope</html>", b"", b"{'data': 1}", b"\xff\xfe"][fault.get("v", 0) % 4]
+            raw = [b"<html>nope</html>", b"", b"{'data': 1}", b"\xff\xfe", b"<html><body>caf\xe9 d\xe9sol\xe9</body></html>",
+                   b"\x1f\x8b\x08\x00\x00\x00\x00\x00\x00\x03\xab\x56\x4a\x49\x2c\x49\x54\xb2\xaa\xae\x05\x00"][fault.get("v", 0) % 6]
         elif k == "torn":
             raw = raw[: max(0, fault["at"] % len(raw))]
         elif k == "json_nonobject":
